@@ -15,7 +15,7 @@ LEVEL = 'fault_enumeration'
 LEVEL_TEXT = (
     'Enumerates process umasks (thorough: all 64 umasks that leave the owner '
     'bits set, i.e. 0o000..0o077; quick: 0, 0o022, 0o077 and seeded others) x '
-    '{fresh start, restart after stop --now, restart after a crash}; the real '
+    '{fresh start, restart after stop --now, restart after a crash} x {private DB untouched, replaced while down by a plain copy of itself}; the real '
     'start-up sequence creates the database and the keys on tmpfs.')
 LEVEL_NOTE = (
     'Trusted: tmpfs honours modes like the real run directory file system; '
@@ -34,7 +34,7 @@ TIERS = {
     'quick': {'n': 4, 'budget_s': 200, 'chunk': 1},
     'thorough': {'n': 16, 'budget_s': 900, 'chunk': 1},
 }
-EXPECTED_PROBES = ['restart_checked', 'keys_checked', 'crash_restart_checked']
+EXPECTED_PROBES = ['private_db_restored_from_copy', 'restart_checked', 'keys_checked', 'crash_restart_checked']
 UMASKS_QUICK = [0o000, 0o022, 0o077, 0o002, 0o027, 0o007]
 
 
@@ -129,6 +129,7 @@ def run_one(params, um):
     mc = ModeCheck()
     mc.umask = um
     how = rng.choice(['stop', 'crash'])
+    restore = rng.random() < 0.5
     cmds = [{'incarnation': 0, 'iter': rng.randint(2, 5), 'name': 'stop',
              'kwargs': {'mode': StopMode.REQUEST_NOW}}] if how == 'stop' else []
     case = Case(seed, knobs={'n_tasks': (2, 3), 'span': (2, 3)},
@@ -144,6 +145,19 @@ def run_one(params, um):
             res.sim.probe('crash_restart_checked')
         if info.reason == 'crash' or info.reason.startswith('stop:REQUEST'):
             h.world.downtime(2.0)
+            if restore:
+                # the operator restores the private DB from a copy while the
+                # scheduler is down (documented recovery: cp log/db
+                # .service/db): the new file has umask-default permissions
+                import shutil
+                pri = os.path.join(h.run_dir, '.service', 'db')
+                if os.path.exists(pri):
+                    tmp = pri + '.restored'
+                    with open(pri, 'rb') as src, open(tmp, 'wb') as dst:
+                        shutil.copyfileobj(src, dst)
+                    os.replace(tmp, pri)
+                    res.sim.probe('private_db_restored_from_copy')
+                    res.sim.fault('db_file_replaced_while_down')
             info = h.run_once()
             res.stops.append(info.reason)
     old = os.umask(um)
